@@ -55,18 +55,25 @@ def sign_class(tok):
 
 
 def run(ctx):
+    import time
+    t0 = time.time()
     ctx.ensure_ppl()
     broken = ctx.prove(["PPLV.Props.C12"])
     drv = ctx.ensure_pplv("pplv_c12")
+    t_prove = time.time() - t0
+    t0 = time.time()
     h = ctx.compile_harness("c12_interval.cc", flags=("-frounding-math",))
+    t_cc = time.time() - t0
     wd = ctx.workdir()
     nrandom = 2000 if ctx.tier == "quick" else 40000
     seed = ctx.seed
     journal = os.path.join(wd, "journal.txt")
     cmd = [h, "--seed", str(seed), "--random", str(nrandom)]
+    t0 = time.time()
     rc, _, err = ctx.run(cmd, stdout_path=journal, timeout=1500)
     if rc != 0:
         ctx.fatal("harness failed rc=%s %s" % (rc, (err or "")[-500:]))
+    t_harness = time.time() - t0
 
     events, probes, crashes = {}, {}, []
     order = []
@@ -86,6 +93,7 @@ def run(ctx):
     d3, d12 = probes["d3"][0], probes["d12"][0]
 
     # one driver process per interval type, in parallel
+    t0 = time.time()
     by_type = collections.defaultdict(list)
     for eid in order:
         by_type[events[eid][1]].append(" ".join(events[eid]))
@@ -104,6 +112,7 @@ def run(ctx):
         if pr.returncode != 0:
             ctx.fatal("driver failed on type %s rc=%s %s" % (ty, pr.returncode, (err or b"")[-500:]))
         verdict_lines += open(vp).read().splitlines()
+    t_driver = time.time() - t0
 
     n_ok = 0
     mism = collections.defaultdict(list)       # id -> [(obligation, tags, detail)]
@@ -226,6 +235,8 @@ def run(ctx):
         random_pairs_per_type=nrandom,
         harness_crashes=len(crashes),
         model_selftest_failures=len(st_fail),
+        phase_seconds={"ppl+lake (incl. waiting for the shared locks)": round(t_prove, 1), "harness compile": round(t_cc, 1),
+                       "harness run": round(t_harness, 1), "drivers (parallel per type)": round(t_driver, 1)},
     )
     ctx.assumptions += [
         "rational members only (an interval denotes a subset of Q; all library policies have may_contain_infinity = false)",
